@@ -1,4 +1,4 @@
-CONSTANTS MaxScript = 0 MaxN = 99 Dev = {}
+CONSTANTS MaxScript = 0 MaxPause = 0 MaxN = 99 Dev = {}
 INIT FileInit
 NEXT Stutter
 INVARIANT JudgeBudget
